@@ -224,6 +224,19 @@ def s_mul(a, b):
                 return to_real_expr(q) if isinstance(p, float) else q
             x, y = lift2(p, q)
             return x * y
+    # both symbolic: an ite with a zero branch distributes (keeps "masked weight * anything = 0" syntactic)
+    for p, q in ((a, b), (b, a)):
+        if z3.is_app_of(p, z3.Z3_OP_ITE):
+            c, x, y = p.children()
+            zx = (z3.is_rational_value(x) or z3.is_int_value(x)) and num(x) == 0
+            zy = (z3.is_rational_value(y) or z3.is_int_value(y)) and num(y) == 0
+            if zx or zy:
+                zero = z3.RealVal(0) if (z3.is_real(p) or isreal(q)) else z3.IntVal(0)
+                if zx:
+                    r = s_mul(y, q) if p is a else s_mul(q, y)
+                    return z3.If(c, zero, r if is_z3(r) else to_real_expr(r))
+                r = s_mul(x, q) if p is a else s_mul(q, x)
+                return z3.If(c, r if is_z3(r) else to_real_expr(r), zero)
     # both symbolic: distribute over ite-of-constants to stay linear
     for p, q in ((a, b), (b, a)):
         ic = _ite_const(p)
